@@ -117,7 +117,8 @@ def describe(case):
     for a in case['args']:
         v = a['v']
         if a['k'] == 'U':
-            parts.append('UTPM(D=%d,P=%d,shape=%s)' % (v.shape[0], v.shape[1], v.shape[2:]))
+            parts.append('UTPM(D=%d,P=%d,shape=%s%s%s)' % (v.shape[0], v.shape[1], v.shape[2:], '' if v.dtype == np.float64 else ',' + str(v.dtype),
+                                                          ',layout=' + a['lay'] if a.get('lay') else ''))
         elif a['k'] == 'A':
             parts.append('ndarray(%s,%s)' % (v.shape, v.dtype))
         else:
@@ -129,22 +130,29 @@ def describe(case):
 # (a) registry operations
 # ---------------------------------------------------------------------------
 
-def prop_reg(case, stats):
-    if case.get('steered'):
-        stats.exclude(case['steered'])
-    op = ops.REG[case['op']]
-    what = describe(case)
+def _objects(case):
     objs, P = [], None
     for a in case['args']:
         if a['k'] == 'U':
-            objs.append(UTPM(np.array(a['v'], copy=True)))
+            objs.append(UTPM(ops.layout(a['v'], a.get('lay'))))
             P = a['v'].shape[1]
         elif a['k'] == 'A':
             objs.append(np.array(a['v'], copy=True))
         else:
             objs.append(a['v'])
-    res = guard(op.call, case.get('form'), case.get('params', {}), *objs)
-    outs = as_tuple(res)
+    return objs, P
+
+
+def _tol(case, op):
+    if op.tol != ops.EXACT and case.get('dmode') == 'f32':
+        return 2e-6        # single precision data: NumPy's own result is only that accurate
+    return op.tol
+
+
+def check_reg(case, outs, objs, P, stats, what):
+    """zeroth coefficients and metadata of the results ``outs`` of a registry case against NumPy / SciPy"""
+    op = ops.REG[case['op']]
+    tol = _tol(case, op)
     for p in range(P):
         plain = [a['v'][0, p] if a['k'] == 'U' else a['v'] for a in case['args']]
         refs = as_tuple(op.ref(case.get('form'), case.get('params', {}), *plain))
@@ -160,7 +168,18 @@ def prop_reg(case, stats):
                 cmp_meta(y, r, w)
             if k in op.skip_outs:
                 continue
-            cmp_value(y.data[0, p], r, op.tol, '%s direction %d' % (w, p), stats)
+            cmp_value(y.data[0, p], r, tol, '%s direction %d' % (w, p), stats)
+
+
+def prop_reg(case, stats):
+    if case.get('steered'):
+        stats.exclude(case['steered'])
+    op = ops.REG[case['op']]
+    what = describe(case)
+    objs, P = _objects(case)
+    res = guard(op.call, case.get('form'), case.get('params', {}), *objs)
+    outs = as_tuple(res)
+    check_reg(case, outs, objs, P, stats, what)
     if op.inplace and outs[0] is not objs[0]:
         raise Violation('%s: the in-place operator did not return its left operand' % what)
 
@@ -177,6 +196,15 @@ def cls_reg(case):
         c.append('distinct-bases')
     if case.get('steered'):
         c.append('steered:' + case['steered'])
+    for a in case['args']:
+        v = a['v']
+        dt = np.asarray(v).dtype
+        if dt != np.float64 or isinstance(v, (bool, int, complex)) and not isinstance(v, float):
+            c.append('dtype:%s=%s' % (a['k'], type(v).__name__ if a['k'] == 'S' else dt))
+        if a.get('lay'):
+            c.append('layout=' + a['lay'])
+    if 'sub' in case:
+        c.append('sub=' + case['sub'])
     if 'mkind' in case:
         c.append('matrix=' + case['mkind'])
     if 'ranks' in case:
@@ -199,11 +227,142 @@ def nt_reg(case):
     return any(np.ndim(a['v']) - (2 if a['k'] == 'U' else 0) >= 2 for a in case['args'])
 
 
+# ---------------------------------------------------------------------------
+# (a) class methods called with their out= argument: the RETURNED value must still follow NumPy
+# ---------------------------------------------------------------------------
+
+def _fft_out(name):
+    return lambda x, q, o: getattr(UTPM, name)(x, out=(o,))
+
+
+# registry op -> (call(objs..., out), number of outputs); the out buffers get the NumPy result shape and junk contents
+OUT_METHODS = {
+    'dot:UU': lambda a, b, o: UTPM.dot(a, b, out=o),
+    'dot:UA': lambda a, b, o: UTPM.dot(a, b, out=o),
+    'dot:AU': lambda a, b, o: UTPM.dot(a, b, out=o),
+    'outer:UU': lambda a, b, o: UTPM.outer(a, b, out=o),
+    'solve:UU': lambda a, b, o: UTPM.solve(a, b, out=o),
+    'solve:AU': lambda a, b, o: UTPM.solve(a, b, out=o),
+    'cholesky': lambda a, o: UTPM.cholesky(a, out=o),
+    'qr': lambda a, o: UTPM.qr(a, out=o),
+    'qr_full': lambda a, o: UTPM.qr_full(a, out=o),
+    'eigh': lambda a, o: UTPM.eigh(a, out=o),
+    'eig': lambda a, o: UTPM.eig(a, out=o),
+    'lu': lambda a, o: UTPM.lu(a, out=o),
+    'svd': lambda a, o: UTPM.svd(a, out=o),
+    'add:UU': lambda a, b, o: UTPM.add(a, b, out=o),
+    'sub:UU': lambda a, b, o: UTPM.sub(a, b, out=o),
+    'mul:UU': lambda a, b, o: UTPM.mul(a, b, out=o),
+    'truediv:UU': lambda a, b, o: UTPM.div(a, b, out=o),
+    'negative': lambda a, o: UTPM.neg(a, out=o),
+}
+OUT_UNBOUND = ('lu', 'svd')        # open finding KF-out-arg-unbound (also UTPM.tile)
+
+
+@st.composite
+def out_cases(draw, name):
+    case = draw(ops.REG[name].cases())
+    case['out'] = True
+    if name in OUT_UNBOUND and KF.is_open('KF-out-arg-unbound'):
+        case['steered'] = 'KF-out-arg-unbound'
+        case['out'] = False
+    return case
+
+
+def prop_out(case, stats):
+    if case.get('steered'):
+        stats.exclude(case['steered'])
+    if not case.get('out'):
+        return prop_reg(case, stats)
+    op = ops.REG[case['op']]
+    what = describe(case) + ' with out='
+    objs, P = _objects(case)
+    D = [a['v'].shape[0] for a in case['args'] if a['k'] == 'U'][0]
+    plain = [a['v'][0, 0] if a['k'] == 'U' else a['v'] for a in case['args']]
+    refs = as_tuple(op.ref(case.get('form'), case.get('params', {}), *plain))
+    bufs = tuple(UTPM(np.full((D, P) + np.shape(r), 7.0, dtype=np.result_type(np.asarray(r).dtype, np.float64))) for r in refs)
+    o = bufs[0] if len(bufs) == 1 else bufs
+    res = guard(OUT_METHODS[case['op']], *(objs + [o]))
+    outs = as_tuple(res)
+    stats.event('out:' + ('returned-is-out' if all(a is b for a, b in zip(outs, bufs)) and len(outs) == len(bufs) else 'out-ignored'))
+    check_reg(case, outs, objs, P, stats, what)
+
+
+# ---------------------------------------------------------------------------
+# (a) state kept between calls: several functions in sequence on same-shaped arrays, every result is held and
+#     re-checked (bitwise unchanged, zeroth coefficient still NumPy's) after all later calls
+# ---------------------------------------------------------------------------
+
+SEQ_VECTOR = ['exp', 'log', 'sqrt', 'sin', 'cos', 'tan', 'arctan', 'tanh', 'square', 'reciprocal', 'absolute', 'sign', 'negative',
+              'erf', 'gammaln', 'expit']
+SEQ_MATRIX = ['inv', 'det', 'logdet', 'cholesky', 'lu', 'eigh', 'qr', 'qr_full', 'svd', 'expm']
+
+
+@st.composite
+def seq_cases(draw, family):
+    D, P = draw(ops.dims())
+    k = draw(st.integers(2, 4))
+    steps = []
+    if family == 'vector':
+        shp = draw(ops.shapes(min_rank=1))
+        names = draw(st.lists(st.sampled_from(SEQ_VECTOR), min_size=k, max_size=k))
+        for n in names:
+            dom, forms, _ = ops.ELEM[n]
+            steps.append({'op': n, 'form': draw(st.sampled_from(sorted(forms))), 'params': {}, 'args': [draw(ops.poly(D, P, shp, dom, mag=0.5))]})
+        if draw(st.booleans()):   # a binary operator between two same-shaped polynomials in between
+            o = draw(st.sampled_from(['add', 'sub', 'mul', 'truediv']))
+            steps.insert(draw(st.integers(0, len(steps))), {'op': o + ':UU', 'form': 'UU', 'params': {},
+                         'args': [draw(ops.poly(D, P, shp, ops.ANY)), draw(ops.poly(D, P, shp, ops.NONZERO))]})
+    else:
+        n_ = draw(st.integers(1, 3))
+        names = draw(st.lists(st.sampled_from(SEQ_MATRIX), min_size=k, max_size=k))
+        kinds = {'inv': 'general', 'det': 'pivot', 'logdet': 'posdet', 'cholesky': 'spd', 'lu': 'pivot', 'eigh': 'symmetric',
+                 'qr': 'general', 'qr_full': 'general', 'svd': 'general', 'expm': 'small'}
+        for n in names:
+            sym = n in ('cholesky', 'eigh')
+            steps.append({'op': n, 'form': draw(st.sampled_from(['global', 'class'])) if n != 'expm' else 'global', 'params': {},
+                          'args': [draw(ops.ulay(draw(ops.mats(D, P, n_, n_, kinds[n], sym))))]})
+    return {'family': family, 'steps': steps}
+
+
+def prop_seq(case, stats):
+    held = []
+    for st_ in case['steps']:
+        op = ops.REG[st_['op']]
+        objs, P = _objects(st_)
+        outs = as_tuple(guard(op.call, st_.get('form'), st_.get('params', {}), *objs))
+        held.append((st_, outs, objs, P, [np.array(y.data, copy=True) if isinstance(y, UTPM) else None for y in outs]))
+    for i, (st_, outs, objs, P, snaps) in enumerate(held):
+        what = 'step %d of %d, %s' % (i + 1, len(held), describe(st_))
+        for y, snap in zip(outs, snaps):
+            if isinstance(y, UTPM) and not np.array_equal(y.data, snap, equal_nan=True):
+                raise Violation('%s: the held result changed while later functions (%s) were called'
+                                % (what, ', '.join(t[0]['op'] for t in held[i + 1:])))
+        check_reg(st_, outs, objs, P, stats, what + ' (re-checked after the later calls)')
+        for a, o in zip(st_['args'], objs):
+            if a['k'] == 'U' and not np.array_equal(o.data, a['v'], equal_nan=True):
+                raise Violation('%s: its argument was modified during the sequence' % what)
+
+
+def cls_seq(case):
+    us = [a['v'] for st_ in case['steps'] for a in st_['args'] if a['k'] == 'U']
+    c = ['D=%d' % us[0].shape[0], 'P=%d' % us[0].shape[1], 'family=' + case['family'], 'steps=%d' % len(case['steps'])]
+    c += ['seq-op=' + st_['op'] for st_ in case['steps']]
+    if len(set(st_['op'] for st_ in case['steps'])) > 1:
+        c.append('different-functions')
+    return c
+
+
+def nt_seq(case):
+    us = [a['v'] for st_ in case['steps'] for a in st_['args'] if a['k'] == 'U']
+    return len(set(st_['op'] for st_ in case['steps'])) > 1 and (any(gen.distinct_bases(u) for u in us) or us[0].ndim - 2 >= 2)
+
+
 def prop_argmax(case, stats):
     x = case['args'][0]['v']
     P = x.shape[1]
     what = describe(case)
-    r = guard(UTPM.argmax, UTPM(x.copy()))
+    r = guard(UTPM.argmax, UTPM(ops.layout(x, case['args'][0].get('lay'))))
     r = np.asarray(r)
     if r.shape != (P,):
         raise Violation('%s: result shape %s, expected one index per direction (%d,)' % (what, r.shape, P))
@@ -256,13 +415,42 @@ def prop_shape(case, stats):
         cmp_value(y.data[0, p], r, ops.EXACT, '%s direction %d' % (what, p), stats)
 
 
-def _shape_cases(strategy, kind):
-    def f(case):
+# operand dtypes of the shape family: data movement keeps every dtype; reductions keep complex and integers exact
+MOVE_DTYPES = ['complex128', 'int64', 'int32', 'uint8', 'bool', 'float32']
+SHAPE_DTYPES = {'getitem': MOVE_DTYPES, 'reshape': MOVE_DTYPES, 'transpose': MOVE_DTYPES, 'tile': MOVE_DTYPES, 'diag': MOVE_DTYPES,
+                'triu': MOVE_DTYPES, 'tril': MOVE_DTYPES, 'conj': MOVE_DTYPES[:-2] + ['float32'], 'real': MOVE_DTYPES, 'imag': MOVE_DTYPES,
+                'construct': ['complex128', 'int64', 'float32'], 'neg': ['complex128', 'int64', 'float32'],
+                'sum': ['complex128', 'int64'], 'trace': ['complex128', 'int64'], 'fft': ['int64'], 'ifft': ['int64'],
+                'symvec': ['complex128'], 'vecsym': ['complex128']}
+
+
+def _cast(x, dt):
+    if np.iscomplexobj(x):
+        return x
+    if dt == 'complex128':
+        n = x.size
+        return x + 1j * ((np.arange(n, dtype=float)[::-1] - 3) * 0.5).reshape(x.shape)
+    if dt == 'bool':
+        return (np.round(x * 8).astype(np.int64) % 3) == 0
+    if dt == 'uint8':
+        return (np.round(np.abs(x) * 8).astype(np.int64) % 251).astype(np.uint8)
+    if dt in ('int64', 'int32'):
+        return np.round(x * 8).astype(dt)
+    return x.astype(dt)
+
+
+def _shape_cases(strategy, kind, name=None):
+    dts = SHAPE_DTYPES.get(name or kind, [])
+
+    def f(t):
+        case, k = t
         case = dict(case)
         case.pop('write', None)
         case['c10kind'] = kind
+        if dts and k < 2 * len(dts) and k % 2 == 0:
+            case['x'] = _cast(case['x'], dts[k // 2])
         return case
-    return strategy.map(f)
+    return st.tuples(strategy, st.integers(0, max(1, 3 * len(dts)))).map(f)
 
 
 def cls_shape(case):
@@ -275,6 +463,8 @@ def cls_shape(case):
         c.append('form=' + case['form'])
     if gen.distinct_bases(sh._apply_src(case['x'], case.get('src'))):
         c.append('distinct-bases')
+    if case['x'].dtype != np.float64:
+        c.append('dtype:U=%s' % case['x'].dtype)
     return c
 
 
@@ -375,6 +565,39 @@ def cmp_cases(draw, opname, kinds):
         case['y'] = {'k': 'S', 'v': y0}
     if steered:
         case['steered'] = steered
+    # operand dtypes and memory layouts: all grid values and offsets are multiples of 1/4, so 4*x is integral
+    dt = draw(st.sampled_from([None, None, None, 'int64', 'int32', 'float32', 'complex128']))
+    if dt in ('int64', 'int32'):
+        case['x'] = np.round(case['x'] * 4).astype(dt)
+        v = case['y']['v']
+        if case['y']['k'] == 'S':
+            case['y']['v'] = int(round(float(v) * 4)) if not isinstance(v, np.generic) else np.int64(round(float(v) * 4))
+        else:
+            case['y']['v'] = np.round(np.asarray(v, dtype=float) * 4).astype(np.int64 if case['y']['k'] == 'A' else dt)
+    elif dt == 'float32':
+        case['x'] = case['x'].astype(np.float32)
+        if case['y']['k'] == 'U':
+            case['y']['v'] = case['y']['v'].astype(np.float32)
+    elif dt == 'complex128' and opname == 'eq':
+        # equality of complex polynomials: equal imaginary parts, optionally one deviating element
+        im = float(draw(st.sampled_from([0.5, -1.0, 2.0])))
+        case['x'] = case['x'] + 1j * im
+        if case['y']['k'] == 'S':
+            case['y']['v'] = complex(float(case['y']['v']), im)
+        else:
+            case['y']['v'] = case['y']['v'] + 1j * im
+        if case['x'][0].size and draw(st.booleans()):
+            k = draw(st.integers(0, case['x'][0].size - 1))
+            flat = case['x'][0].reshape(-1)
+            flat[k] = flat[k] + 1j
+    else:
+        dt = None
+    if dt:
+        case['dt'] = dt
+    for key in ('xlay', 'ylay'):
+        lay = draw(st.sampled_from(ops.LAYOUTS))
+        if lay:
+            case[key] = lay
     return case
 
 
@@ -395,9 +618,9 @@ def prop_cmp(case, stats):
     if case.get('steered'):
         stats.exclude(case['steered'])
     op = CMP[case['op']]
-    x = UTPM(case['x'].copy())
+    x = UTPM(ops.layout(case['x'], case.get('xlay')))
     yk = case['y']
-    y = UTPM(yk['v'].copy()) if yk['k'] == 'U' else (yk['v'].copy() if yk['k'] == 'A' else yk['v'])
+    y = UTPM(ops.layout(yk['v'], case.get('ylay'))) if yk['k'] == 'U' else (yk['v'].copy() if yk['k'] == 'A' else yk['v'])
     outcomes = _cmp_outcomes(case)
     expected = bool(all(bool(np.all(o)) for o in outcomes))
     anyt = any(bool(np.any(o)) for o in outcomes)
@@ -433,6 +656,11 @@ def cls_cmp(case):
         c.append('broadcast')
     if case.get('steered'):
         c.append('steered:' + case['steered'])
+    if case.get('dt'):
+        c.append('dtype:U=' + case['dt'])
+    for key in ('xlay', 'ylay'):
+        if case.get(key):
+            c.append('layout=' + case[key])
     return c
 
 
@@ -798,6 +1026,10 @@ def buckets(tier):
         heavy = op.family == 'linalg'
         add('a:' + name, op.cases, prop_reg, op.n[0], op.n[1], nt_reg, cls_reg, 3.0 if heavy else 1.0)
     add('a:argmax', ops.ARGMAX_CASES, prop_argmax, 80, 600, nt_reg, cls_reg)
+    for name in OUT_METHODS:
+        add('a:out:' + name, (lambda name=name: out_cases(name)), prop_out, 40, 300, nt_reg, cls_reg, 2.0)
+    add('a:seq:vector', lambda: seq_cases('vector'), prop_seq, 150, 1500, nt_seq, cls_seq, 3.0)
+    add('a:seq:matrix', lambda: seq_cases('matrix'), prop_seq, 100, 1000, nt_seq, cls_seq, 5.0)
     # (a) shape-manipulating operations (generators shared with C13)
     add('a:getitem', lambda: _shape_cases(st.one_of(sh.getitem_cases('tuple'), sh.getitem_cases('bare')), 'getitem'),
         prop_shape, 240, 2000, nt_shape, cls_shape, 2.0)
@@ -808,7 +1040,7 @@ def buckets(tier):
                  ('real', lambda: sh.unary_cases('real')), ('imag', lambda: sh.unary_cases('imag')),
                  ('fft', lambda: sh.fft_cases('fft')), ('ifft', lambda: sh.fft_cases('ifft'))]
     for name, cases in shape_ops:
-        add('a:' + name, (lambda cases=cases: _shape_cases(cases(), 'op')), prop_shape, 80, 600, nt_shape, cls_shape, 1.5)
+        add('a:' + name, (lambda cases=cases, name=name: _shape_cases(cases(), 'op', name)), prop_shape, 80, 600, nt_shape, cls_shape, 1.5)
     for fam in ('zeros', 'ones', 'like'):
         add('a:construct-' + fam, (lambda fam=fam: _shape_cases(sh.construct_cases(fam), 'construct')), prop_shape, 80, 500,
             nt_shape, cls_shape)
